@@ -384,24 +384,28 @@ def render_b(prog, mode):
         body = "      f0();"
     else:
         body = _c07.r_block(_strip_ret(funcs[0]["b"]), "      ")
-    parts.append("function run(N) {\n  for (var it=0; it<N; it++) {\n    mark(it);\n    try {\n%s\n    } catch (eb) { pc(0, desc(eb)); }\n  }\n}\nrun(NN);\n\"done\";" % body)
+    parts.append("function run(N) {\n  for (var i0=0; i0<N; i0++) {\n    mark(i0);\n    try {\n%s\n    } catch (eb) { pc(0, desc(eb)); }\n  }\n}\nrun(NN);\n\"done\";" % body)
     return "\n".join(parts)
 
 
 def gen_case_b(seed, i, tier):
     rng = substream(seed, "c02b", i)
     profile = rng.choice(("full", "nonative", "core", "core_native", "full"))
-    prog = _c07.gen_program(rng, profile)
+    outer = rng.random() < 0.5
+    prog = _c07.gen_program(rng, profile, outer_loop=outer)
     D = _c07.model(prog, [])["decisions"]
     r = rng.random()
-    if D == 0 or r < 0.25:
+    tp = _c07.targeted_pairs(prog, list(range(min(D, 40))), 8) if D else []
+    if D == 0 or r < 0.2:
         fs = []
-    elif r < 0.8:
+    elif r < 0.6 or (not tp and r < 0.85):
         fs = [rng.randrange(D)]
+    elif tp and r < 0.9:
+        fs = rng.choice(tp)        # throw in the try block, then throw in its catch/finally
     else:
         j = rng.randrange(D)
         fs = [j, j + rng.randrange(1, 5)]
-    mode = rng.choice(("call", "inline"))
+    mode = "inline" if outer else rng.choice(("call", "inline"))
     nbig = 200 if tier == "quick" else rng.choice((200, 1000, 10000))
     cell = {"stratum": "B", "mode": mode, "nbig": nbig}
     return {"property": PROPERTY, "seed": seed, "index": i, "cell": cell, "prog": prog, "faults": fs,
@@ -469,14 +473,16 @@ def execute_b(case):
             if a != b:
                 v.append({"clause": "C02.B.residue", "detail": "(operands, frames, handlers) at the loop head: %s then %s in the next iteration" % (a, b)})
                 break
-    # 2. smallest limit under which one iteration succeeds (black box: no attribute names)
+    # 2. smallest limit under which the first iterations succeed (black box: no attribute names)
     cap1 = work1 * 6 + 200_000
     lo, hi = 0, 1 << 20
 
     def ok(M, N, cap):
         o, _, _ = _run_b(src, fs, N, M, cap)
         return o
-    o = ok(hi, 1, cap1)
+    NB = 4   # iterations 0..3 cover every iteration-dependent path (conditions test i0 in {0,1,2})
+    cap1 = cap1 * NB
+    o = ok(hi, NB, cap1)
     if not (o["kind"] == "value"):
         v.append({"clause": "precondition", "detail": "one iteration does not run under 1 MiB: %s" % o["kind"]})
         res.update(violations=v, digest=W.digest(), M1=None)
@@ -485,7 +491,7 @@ def execute_b(case):
         mid = (lo + hi) // 2
         if mid == 0:
             break
-        o = ok(mid, 1, cap1)
+        o = ok(mid, NB, cap1)
         if o["kind"] == "value":
             hi = mid
         else:
@@ -498,7 +504,7 @@ def execute_b(case):
     res["big_outcome"] = o["kind"]
     res["work"] += o["end_work"] - o["start_work"]
     if o["kind"] == "limit_mem":
-        v.append({"clause": "C02.B.limit", "detail": "one iteration runs under memory_limit=%d but %d iterations hit MemoryLimitError under %d" % (
+        v.append({"clause": "C02.B.limit", "detail": "four iterations run under memory_limit=%d but %d iterations hit MemoryLimitError under %d" % (
             M1, nbig, M1 + B_HEADROOM)})
     elif o["kind"] != "value":
         v.append({"clause": "precondition", "detail": "%d iterations ended in %s %s %s" % (nbig, o["kind"], o.get("cls"), o.get("msg"))})
